@@ -115,4 +115,5 @@ def main() -> None:
     net.finish("bounded", "3 stream classes x 8 logical types x delimited x {inferred + 6 flow classes} x frame sizes x 1..5 statements; flat_/grouped_stream_to_file with guessed streams",
                "each case = one lattice point with a random statement list; non-trivial = the configuration was accepted (constructed without raising)")
 if __name__ == "__main__":
-    main()
+    from common import run_main
+    run_main(main, "C06")
